@@ -287,6 +287,11 @@ class MutableCheckAndRepairer(MutableChecker):
         d = self._node.repair(pre_repair_results, monitor=self._monitor)
         def _repair_finished(rr):
             crr.repair_successful = rr.get_successful()
+            if crr.repair_successful:
+                # the publish has replaced every share in the servermap,
+                # including the ones the verifier had found to be corrupt:
+                # they must not be held against the repaired file
+                self.bad_shares = []
             crr.post_repair_results = self._make_checker_results(rr.servermap)
             crr.repair_results = rr # TODO?
             return
